@@ -1,8 +1,19 @@
 (* Properties/C10.v — the shipped catalog and page-tree specification is enforced.
    Everything is about the DUMPED specification gen/Shipped.v (regenerated on every run from what
    catalog_type(&mut tctx) constructs), so each theorem is re-checked against the code as it is now.
-   Only statements, each closed by [exact] of a lemma from Proofs/, with Print Assumptions. *)
-From PV Require Import Spec.PageTreeSpec gen.Shipped Model.ShippedEntry Proofs.ShippedFacts.
+   Only statements, each closed by [exact] of a lemma from Proofs/, with Print Assumptions.
+
+   1. finite structural facts about the dump (by computation);
+   2. the declarative level, for ALL documents of Spec/PageTreeSpec.v: every well-formed document
+      conforms (C10_accepts_decl); every single-rule violation does not (C10_rejects_decl);
+      [conforms] is the declarative semantics of Spec/Conforms.v (greatest fixed point of the unfolding);
+   3. the checker (Model/TypeCheck.v, transcription of check_type as repaired by C08), through C08's
+      transfer theorems (Proofs/TypeCheckSound.v): every well-formed document is ACCEPTED (C10_accepts);
+      every single-rule violation that is not located in a dictionary entry whose declared check has type
+      Any is REJECTED (C10_rejects_except_known).  The full statement (every violation rejected) is false
+      of the code: C10_any_typed_entries_refuted (open known finding, DESIGN 7 row 22).  Repaired in this
+      property's files: C10_numtree_pinned_refuted, C10_date_pinned_refuted. *)
+From PV Require Import Spec.PageTreeSpec gen.Shipped Model.ShippedEntry Proofs.ShippedFacts Proofs.ShippedMain.
 
 (* ================= 1. finite structural facts about the dumped specification ================= *)
 
@@ -122,6 +133,83 @@ Theorem C10_shape :
                        | _ => true end) (spec_chks shipped_tctx shipped_root) = true.
 Proof. exact (conj no_star_entries names_defined). Qed.
 
+
+(* ================= 2. the declarative level, for all documents ================= *)
+
+(* every well-formed catalog (page tree of any depth and fan-out; root node, inner nodes, pages and
+   templates as indirect objects with pairwise distinct numbers; /Parent on every non-root; any declared
+   optional entries with conforming values, direct or behind a reference; any unmentioned keys) conforms
+   to the dumped specification *)
+Theorem C10_accepts_decl : forall d,
+  wf_doc d -> conforms shipped_opq (emit_ctx d) shipped_tctx (emit_root d) shipped_root.
+Proof. exact shipped_accepts. Qed.
+
+(* every document obtained from a well-formed one by a single violation — a required key dropped
+   (/Type /Pages /Count /Kids /Parent), the forbidden /Parent added (root node, template), /Type not the
+   expected name, /Count not an integer, /Kids not an array, a kid given directly instead of by
+   reference, /Parent not a reference, a declared optional entry of catalog / page / template with a
+   direct value that is not of its kind (wrong type, unlisted name, rectangle not of four numbers, bad
+   date, malformed name or number tree ...), a required-indirect entry given directly — does NOT conform *)
+Theorem C10_rejects_decl : forall d m,
+  wf_doc d -> mutation true d m -> ~ conforms shipped_opq (fst m) shipped_tctx (snd m) shipped_root.
+Proof. exact shipped_rejects. Qed.
+
+(* the hypotheses are satisfiable: a catalog with a two-level tree (page, inner node, template), optional
+   entries of seven kinds, an unmentioned key; and a mutation of it *)
+Example C10_example : wf_doc ex_doc
+  /\ mutation false ex_doc (ctx_edit (2, 0)%N ex_edit (emit_ctx ex_doc), emit_root ex_doc).
+Proof. exact (conj ex_wf ex_mutation). Qed.
+
+(* ================= 3. the checker ================= *)
+
+(* the checker model (check_type) accepts every well-formed document *)
+Theorem C10_accepts : forall d, wf_doc d -> shipped_check (emit_ctx d) (emit_root d) = Accept.
+Proof. exact shipped_check_accepts. Qed.
+
+(* ... and rejects every single-rule violation except those located in an entry of type Any:
+   [mutation false] is [mutation true] without "/Parent given directly on an inner node or page",
+   "bad number tree under /PageLabels" and "bad name dictionary under /Names" (C10_mutation_weaken) *)
+Theorem C10_rejects_except_known : forall d m,
+  wf_doc d -> mutation false d m -> exists e, shipped_check (fst m) (snd m) = Reject e.
+Proof. exact shipped_check_rejects. Qed.
+Theorem C10_mutation_weaken : forall d m, mutation false d m -> mutation true d m.
+Proof. exact mutation_weaken. Qed.
+
+(* computed instances on the checker model: the example is accepted; its three-number /MediaBox, an
+   embedded kid and a page with /Type /Catalog are rejected (the last two were accepted by the pinned code) *)
+Theorem C10_example_checked :
+  shipped_check (emit_ctx ex_doc) (emit_root ex_doc) = Accept
+  /\ (exists e, shipped_check (ctx_edit (2, 0)%N ex_edit (emit_ctx ex_doc)) (emit_root ex_doc) = Reject e)
+  /\ (exists e, shipped_check (ctx_edit (1, 0)%N ex_direct_kid (emit_ctx ex_doc)) (emit_root ex_doc) = Reject e)
+  /\ (exists e, shipped_check (ctx_edit (2, 0)%N (ESet k_Type (OName (B "Catalog"))) (emit_ctx ex_doc))
+                              (emit_root ex_doc) = Reject e).
+Proof. exact ex_checked. Qed.
+
+(* OPEN (known finding C10-any-typed-entries-unchecked): the full statement "every mutation is rejected by
+   the checker" is false — dictionary entries whose check has type Any are skipped with their required
+   indirection and predicate: /Parent [1 0 R] and a /PageLabels number tree with a string key are
+   mutations, violate the declarative semantics, and are accepted by the checker model (and by the
+   implementation: witnesses in corpus/c10.txt) *)
+Theorem C10_any_typed_entries_refuted :
+  (mutation true ex_doc (ctx_edit (2, 0)%N ex_parent_array (emit_ctx ex_doc), emit_root ex_doc)
+   /\ shipped_check (ctx_edit (2, 0)%N ex_parent_array (emit_ctx ex_doc)) (emit_root ex_doc) = Accept
+   /\ shipped_spec (ctx_edit (2, 0)%N ex_parent_array (emit_ctx ex_doc)) (emit_root ex_doc) = false)
+  /\ (mutation true ex_doc (emit_ctx ex_doc, apply_edit ex_bad_numtree (emit_root ex_doc))
+      /\ shipped_check (emit_ctx ex_doc) (apply_edit ex_bad_numtree (emit_root ex_doc)) = Accept
+      /\ shipped_spec (emit_ctx ex_doc) (apply_edit ex_bad_numtree (emit_root ex_doc)) = false).
+Proof. exact (conj any_typed_entries_unchecked any_typed_predicates_unchecked). Qed.
+
+(* REPAIRED (number_tree.rs, commit f94edb9): the pinned NumberTreePredicate accepted a number tree whose
+   /Nums key is a string, because it read the pairs from /Names *)
+Theorem C10_numtree_pinned_refuted :
+  exists o, number_tree_pred_pinned o = true /\ number_tree_pred o = false.
+Proof. exact numtree_pinned_refuted. Qed.
+(* REPAIRED (common_data_structures.rs, commit b2e4a95): the pinned DateStringPredicate accepted a year of
+   four non-ASCII decimal digits *)
+Theorem C10_date_pinned_refuted :
+  exists s, date_pred_pinned [(48, 57); (1632, 1641)]%N (OStr s) = true /\ date_pred (OStr s) = false.
+Proof. exact date_pinned_refuted. Qed.
+
 Print Assumptions C10_dump_is_spec.
 Print Assumptions C10_dump_read.
 Print Assumptions C10_catalog_keys.
@@ -140,3 +228,13 @@ Print Assumptions C10_optional_entries.
 Print Assumptions C10_predicates.
 Print Assumptions C10_no_pinned_predicates.
 Print Assumptions C10_shape.
+Print Assumptions C10_accepts_decl.
+Print Assumptions C10_rejects_decl.
+Print Assumptions C10_example.
+Print Assumptions C10_accepts.
+Print Assumptions C10_rejects_except_known.
+Print Assumptions C10_mutation_weaken.
+Print Assumptions C10_example_checked.
+Print Assumptions C10_any_typed_entries_refuted.
+Print Assumptions C10_numtree_pinned_refuted.
+Print Assumptions C10_date_pinned_refuted.
